@@ -217,6 +217,10 @@ func c15Oracle(c c15Case) error {
 	if _, _, _, err := c15Names(on.Goroutines); err != nil {
 		return err
 	}
+	// which values may carry a name at all is the documented classification
+	if err := ptrConsistency(on.Goroutines); err != nil {
+		return err
+	}
 	for _, o := range allScalarArgs(off.Goroutines) {
 		if o.arg.Name != "" {
 			return fmt.Errorf("naming is off but an argument is named %q", o.arg.Name)
